@@ -373,6 +373,16 @@ class Translator:
         if isinstance(op, (ast.In, ast.NotIn)):
             at = B(f"in:{self.key(a)}|{self.key(b)}")
             return at if isinstance(op, ast.In) else Not(at)
+        if isinstance(op, (ast.Eq, ast.NotEq)):
+            # D.get(k, d) != d   <=>   k in D and D[k] != d
+            for x, y in ((a, b), (b, a)):
+                cx = self.canon(x) if self.canon is not None else x
+                if isinstance(cx, ast.Call) and isinstance(cx.func, ast.Attribute) and cx.func.attr == "get" and len(cx.args) == 2 \
+                        and not cx.keywords and self.key(cx.args[1]) == self.key(y):
+                    inn = B(f"in:{self.key(cx.args[0])}|{self.key(cx.func.value)}")
+                    l_, r_ = sorted([f"{self.key(cx.func.value)}[{self.key(cx.args[0])}]", self.key(y)])
+                    eq = B(f"eq:{l_}|{r_}")
+                    return Or(Not(inn), eq) if isinstance(op, ast.Eq) else And(inn, Not(eq))
         ta, tb = self.term(a), self.term(b)
         if ta is not None and tb is not None:
             if isinstance(op, ast.Eq):
